@@ -9,10 +9,12 @@
      - entering the compiled passage runs exactly the passage's top-level commands in source order;
      - for a passage without @join markers whose content the two whitespace normalisations leave unchanged,
        the compiled passage's content renders to the reference meaning of its lines.
-   PARTIAL (named so): the two documented whitespace normalisations (a newline next to a block conditional
-   collapses with a neighbouring newline; trailing newlines collapse to one) are specified on the token list
-   (Source.cleanup_ws / trim_trailing follow validation.py) and are part of compile_ref, but no source-level
-   characterisation of them is proved; passages with @join sections are covered by C10.
+     - for EVERY passage without @join markers the compiled content renders to the reference meaning of its
+       lines up to deletion of newline characters from the shown text (state, jump, directives equal).
+   PARTIAL (named so): WHICH newlines the two documented whitespace normalisations delete (a newline next to a
+   block conditional collapses with a neighbouring newline; trailing newlines collapse to one) is specified on
+   the token list (Source.cleanup_ws / trim_trailing follow validation.py) and is part of compile_ref; no
+   source-level characterisation of that choice is proved; passages with @join sections are covered by C10.
    TIE (harness/c01.py, every run): generated source ASTs are printed as .bard text; the REAL compiler's dict must
    equal compile_ref of the AST (compared inside Coq), in memory and through compile-to-file + JSON load; the REAL
    engine's play along random choice sequences must equal the model's play of compile_ref. *)
@@ -42,6 +44,21 @@ Theorem passage_content_meaning_partial : forall orc ctxkeys body s,
   render_content orc ctxkeys (top_content body) s = sem_items orc ctxkeys (filter shown_item body) s.
 Proof. exact passage_content_meaning. Qed.
 Print Assumptions passage_content_meaning_partial.
+
+(* FULL at passage level (no @join markers; those are C10): same state, jump and directives as the reference meaning
+   of the lines; the shown text is the reference text with newline characters deleted - only newlines, and which
+   ones is what cleanup_ws / trim_trailing (tied to validation.py by the correspondence run) compute *)
+Theorem passage_content_meaning_up_to_newlines : forall orc ctxkeys body s,
+  forallb (fun it => negb (is_join it)) body = true ->
+  same_up_to_newlines (sem_items orc ctxkeys (filter shown_item body) s)
+                      (render_content orc ctxkeys (top_content body) s).
+Proof. exact passage_content_meaning_full. Qed.
+Print Assumptions passage_content_meaning_up_to_newlines.
+
+Theorem normalisations_delete_newline_tokens_only : forall body,
+  del_nl_tok (top_content_raw body 0) (top_content body).
+Proof. exact top_content_deletes_newlines. Qed.
+Print Assumptions normalisations_delete_newline_tokens_only.
 
 (* non-vacuity: a passage with a glued line, an inline conditional, a block with a statement and a jump *)
 Definition demo_body : list item :=
